@@ -42,6 +42,10 @@ for n, pms in ((3, perms(3)), (4, [tuple(range(4)), (0, 2, 1, 3)])):
         for sh in (0, 1):
             HARNESSES.append(T(n, 1, 0, pm, symheap=sh, timeout=1200, tiers=(('quick', 'thorough') if n == 3 else ('thorough',))))
             for nk in (0, 17, 99): HARNESSES.append(T(n, 2, 0, pm, symheap=sh, newkey_other=nk, timeout=1800, tiers=('thorough',)))
+# budgeted depth-first exploration in the quick tier: re-arm of the root of 3 timers with BOTH heaps symbolic (two-children sift-down).  The complete exploration takes hours (see above), so on the unchanged
+# tree these two end INCONCLUSIVE after their 150 s budget - reported as such, never as a verdict; a violating path is met within seconds (this is what catches the seeded C11_m1 / C11_m3 in the quick tier)
+for _pm in ((0, 1, 2), (0, 2, 1)):
+    _h = T(3, 2, 0, _pm, timeout=150); _h.name += '_budget150'; _h.note += ' - BUDGETED: depth-first for 150 s, INCONCLUSIVE when the budget ends'; HARNESSES.append(_h)
 # crossing the segment boundary (5 -> 6 timers grows, 6 -> 5 shrinks): identity deadline order, in the quick tier
 HARNESSES += [T(5, 0), T(6, 1, 5)] + [T(6, 1, 0, tiers=('thorough',), timeout=3000)]
 PR2 = dict(PR); PR2.update({'SZ_timer_config': 'sizeof(struct dispatch_timer_config_s)', 'OFF_dtc_clock': 'offsetof(struct dispatch_timer_config_s, dtc_clock)', 'OFF_dt_pending_config': 'offsetof(struct dispatch_timer_source_refs_s, dt_pending_config)',
@@ -58,4 +62,4 @@ HARNESSES += [
 ASSUMPTIONS = ['one heap operation from an arbitrary heap satisfying the representation invariant (induction step: covers histories of any length); heap sizes 1..6 (first two segments), deadline-heap arrangement: every permutation for n<=4, a sample for n=5, identity for the segment-boundary cases',
                'keys are arbitrary 64-bit values (ties included); allocation of heap segments never fails']
 LEVEL_TEXT = 'Timer heap: one real insert/remove/update from an ARBITRARY valid heap (induction step) of 1..6 timers - pre-state written directly with symbolic keys assumed to satisfy both heap orders, deadline-heap arrangement case-split over all permutations (n<=4) - explored path by path (cbmc --paths, every pointer concrete per path, keys symbolic): both heap orders, back-pointers, no timer lost, dth_min is the true minimum (the kernel timer is programmed for the earliest timer), re-program requested when a minimum changes. Firing arithmetic: _dispatch_timer_unote_compute_missed (count == passed interval boundaries, next target in the future) decided by cvc5 with bit-vectors as integers for times < 2^32 (thorough 2^48); _dispatch_timer_unote_configure: new settings replace old ones and stale pending data is always discarded. Root removals of 3-timer heaps (every arrangement) with one heap symbolic at a time are in the quick tier.'
-LEVEL_NOTE = 'Root-level sift-down of heaps with >= 3 timers needs minutes per query and is in the thorough tier only; _dispatch_timers_run / dispatch_after / epoll programming and the manager thread are not covered; compute_missed only below the stated bit widths.'
+LEVEL_NOTE = 'Root-level re-arm (two-children sift-down) of heaps with >= 3 timers does not finish within any practical budget: the quick tier explores it depth-first for 150 s and reports INCONCLUSIVE for those two harnesses (not a verdict), the thorough tier gives them 30 min; _dispatch_timers_run / dispatch_after / epoll programming and the manager thread are not covered; compute_missed only below the stated bit widths.'
